@@ -212,8 +212,9 @@ fn run_c12(w: &mut W) {
     if !crate::neon_src::NEON_SOURCE_OK {
         w.st.notes.push(format!("NEON source not usable: {}", crate::neon_src::NEON_REWRITE_NOTE));
     }
-    let maxl = w.by_tier((40usize, 70, 100, 100));
-    let values: Vec<u8> = if w.tier <= Tier::Small { gen::BOUNDARY.to_vec() } else { gen::all_bytes() };
+    let maxl = w.by_tier((41usize, 70, 100, 100));
+    let tiny = w.tier == Tier::Tiny;
+    let values: Vec<u8> = if tiny { vec![0x7F, 0x1F] } else if w.tier <= Tier::Small { gen::BOUNDARY.to_vec() } else { gen::all_bytes() };
     let mut idx: u64 = 0;
     let (shard, n) = (w.shard, w.nshards);
     for &sc in ALL_SC.iter() {
@@ -224,6 +225,9 @@ fn run_c12(w: &mut W) {
             buf.extend((0..l).map(|i| class_filler(c, i + l)));
             // no offending byte: End, Start and all 32 alignments
             for pl in 0..34u32 {
+                if tiny && !(pl == (l % 32) as u32 || pl == 32) {
+                    continue;
+                }
                 idx += 1;
                 if idx % n != shard {
                     continue;
@@ -238,6 +242,9 @@ fn run_c12(w: &mut W) {
             }
             // single offending position x values
             for q in 0..l {
+                if tiny && !(q == 0 || q == l / 2 || q + 1 == l || q % 8 == 7) {
+                    continue;
+                }
                 let keep = buf[q];
                 for &v in &values {
                     idx += 1;
@@ -252,7 +259,7 @@ fn run_c12(w: &mut W) {
                 buf[q] = keep;
             }
             // pairs of offending positions (first-of-several selection)
-            if w.tier >= Tier::Quick || l <= 34 {
+            if w.tier >= Tier::Quick || (l <= 34 && !tiny) {
                 let bad: [u8; 4] = [0x00, 0x7F, 0x0A, 0x1F];
                 for q1 in 0..l {
                     for q2 in (q1 + 1)..l {
@@ -294,7 +301,7 @@ fn run_c12(w: &mut W) {
     }
     // word-at-a-time block function: all 8-byte strings over a boundary alphabet
     let alpha: Vec<u8> = match w.tier {
-        Tier::Tiny => vec![0x09, 0x20, 0x7F, b'a'],
+        Tier::Tiny => vec![0x7F, b'a'],
         Tier::Small => vec![0x00, 0x09, 0x20, 0x21, 0x7F, 0x80, b'a'],
         Tier::Quick => vec![0x00, 0x09, 0x1F, 0x20, 0x21, 0x7E, 0x7F, 0x80, 0xFF],
         Tier::Thorough => vec![0x00, 0x08, 0x09, 0x0A, 0x1F, 0x20, 0x21, 0x7E, 0x7F, 0x80, 0xFF, b'a'],
@@ -519,13 +526,13 @@ fn history_case(w: &mut W, is_req: bool, cap: usize, backend: Backend, steps: &[
 }
 
 fn run_c18(w: &mut W) {
-    let total = w.by_tier((60u64, 3000, 400_000, 8_000_000));
+    let total = w.by_tier((320u64, 3000, 400_000, 8_000_000));
     let (shard, n) = (w.shard, w.nshards);
     let pools: Vec<Vec<Vec<u8>>> = [Kind::Req, Kind::Resp]
         .iter()
         .map(|k| {
             let mut p = gen::templates(*k);
-            for l in gen::g8_literals() {
+            for l in if w.tier == Tier::Tiny { Vec::new() } else { gen::g8_literals() } {
                 if gen::guess_kind(&l) == *k && l.len() < 600 {
                     p.push(l);
                 }
